@@ -354,6 +354,30 @@ def job_vector(cfg):
                 return d > 1e-9, {"form": kind, "max_abs_difference_vs_per_gauss_point_oracle": d}
 
             compare_arrays(res, f"{key}: {kind} form vs per-Gauss-point oracle", gotk, oracle(kind), pcs, replay_k, TOL, key=f"{key}: {kind} form")
+        # vector mass form rho u.v (the form of examples/WeakForms/LinearElasticity2.py) against the built-in operator UV with dof_n = dim
+        rho_s = c.var("rho", Fraction(1, 10), 10)
+        res.symbols += 1
+        fieldM = Field(g, dim, MatrixType.mass)
+        try:
+            gotM, errM = BiLinearForm(lambda u, v: rho_s * u.dot(v)).Integrate_e(fieldM), None
+        except Exception as e:
+            gotM, errM = None, e
+
+        def replay_M(env):
+            rf = fval(env, rho_s)
+            g2 = get_mesh(et).groupElem
+            try:
+                gk = BiLinearForm(lambda u, v: rf * u.dot(v)).Integrate_e(Field(g2, dim, MatrixType.mass))
+            except Exception as e2:
+                return True, {"rho": rf, "raised": repr(e2)[:200]}
+            ref = np.asarray(Bilinear.UV(g2, rf, dim, MatrixType.mass), dtype=float)
+            d = float(np.abs(np.asarray(gk, dtype=float) - ref).max())
+            return d > 1e-9 * abs(rf), {"rho": rf, "max_abs_difference_form_vs_UV": d, "form_block_node0_node0": np.asarray(gk, dtype=float)[0, :dim, :dim].tolist(), "UV_block_node0_node0": ref[0, :dim, :dim].tolist()}
+
+        if errM is not None:
+            res.record(f"{key}: rho u.v evaluates", Outcome("cex", env=dict(c.shadow), how="structure", detail=repr(errM)[:120]), replay_M, key=f"{key}: vector mass form")
+        else:
+            compare_arrays(res, f"{key}: rho u.v  vs UV(dof_n = dim)", gotM, Bilinear.UV(g, rho_s, dim, MatrixType.mass), c.pc_since(mark), replay_M, TOL, key=f"{key}: vector mass form")
     res.paths, res.path_conditions = 1, len(c.pc_since(mark))
     o = prove_abs_le(as_sym(np.asarray(got, dtype=object)[0, 0, 0]) - as_sym(np.asarray(want, dtype=object)[0, 0, 0]) - mu, TOL, pcs, "twin")
     res.twin(f"{key} twin", o.status == "cex")
